@@ -37,7 +37,9 @@ def actOfName (name : String) (arg : Option Int) : Option Act :=
 
 structure Expect where
   t : Option Nat := none
-  fin : Bool := false
+  fin : Bool := false          -- the generator returned (budget / end_loop / exhausted proposer)
+  crash : Bool := false        -- the proposer raised a transient error: the worker left pg.sample
+  snap : Option J := none      -- what poll_result(name) / the algorithm show at this point
 
 def parseAct (j : J) : Option (Nat × Act × Expect) := do
   let xs ← j.asArr?
@@ -51,7 +53,8 @@ def parseAct (j : J) : Option (Nat × Act × Expect) := do
     let ex : Expect := match rest.getLast? with
       | some (.obj kvs) =>
         let o := J.obj kvs
-        { t := o.getNat? "t", fin := (o.getBool? "fin").getD false }
+        { t := o.getNat? "t", fin := (o.getBool? "fin").getD false,
+          crash := (o.getBool? "crash").getD false, snap := o.get? "snap" }
       | _ => {}
     let a ← actOfName name arg
     pure (w, a, ex)
@@ -90,12 +93,27 @@ def pcTrial : PC → Option Nat
   | .ctAppend t | .ctPendR t | .ctPendW t | .ctLatest t => some t
   | _ => none
 
+/-- Public snapshot of the registered study and the algorithm's counters:
+[[ [id, completed, infeasible, final|null] … ], PENDING, COMPLETED, infeasible, best|null, proposals, feedbacks]. -/
+def snapJ (s : State) : J :=
+  match s.registry.bind (s.studies[·]?) with
+  | none => .null
+  | some st =>
+    .arr [.arr (st.trials.map fun t => J.arr [.int t.id, .bool t.completed, .bool t.infeasible, J.ofOptInt t.final]),
+          .int st.numPending, .int st.numCompleted, .int st.numInfeasible,
+          (match st.best with | some b => J.int b | none => J.null),
+          .int s.algo.numProposals, .int s.algo.numFeedbacks]
+
 def expectOk (s : State) (w : Nat) (ex : Expect) : Bool :=
   let pc := (s.workers w).pc
   (match ex.t with
    | some t => pcTrial pc == some t
    | none => true) &&
-  (if ex.fin then pc == .finished else true)
+  (if ex.fin then pc == .finished || pc == .exhausted else true) &&
+  (if ex.crash then pc == .crashed else true) &&
+  (match ex.snap with
+   | some j => j == snapJ s
+   | none => true)
 
 def optNatJ : Option Nat → J
   | some n => .int n
@@ -144,10 +162,11 @@ def handle (j : J) : J :=
       | none => bad "acts"
       | some as =>
         let maxT := j.getNat? "max"
+        let space := j.getNat? "space"
         let cfg := match j.get? "cfg" with
           | some (.obj kvs) => cfgOfJ (.obj kvs)
           | _ => cfgNow
-        let s0 := init n (fun i => groups.getD i 0) maxT
+        let s0 := init n (fun i => groups.getD i 0) maxT space
         let (s, err) := runLog cfg s0 0 as
         match err with
         | none => .obj [("accepted", .bool true), ("at", .null), ("state", stateJ s)]
